@@ -12,6 +12,7 @@ From V Require Import Model.Arena.
 From V Require Import Gen.FeedConst Model.Feed Spec.LineEndings.
 From V Require Import Base.Bytes Base.Res Gen.Tables Model.Escape Spec.EscapeSpec Model.Ast.
 From V Require Import Gen.NodesXml Model.Xml Spec.XmlLex.
+From V Require Import Gen.Cli Model.CliModel Spec.CliDoc.
 Extraction Language OCaml.
 Set Extraction KeepSingleton.
 
@@ -104,4 +105,39 @@ Extraction "model.ml"
   XmlLex.cells_ok
   XmlLex.literal_leaves
   XmlLex.max_tag_indent
+  Cli.options_of_cli
+  CliDoc.documented_options
+  Cli.cli_of_assoc
+  Cli.copts_to_assoc
+  Cli.formatter_of
+  CliDoc.documented_renderer
+  Cli.sink_of
+  CliDoc.documented_sink
+  Cli.highlighter_of
+  CliDoc.documented_highlighter
+  Cli.installs_highlighter
+  Cli.inplace_precheck
+  Cli.cli_flags
+  Cli.all_extensions
+  Cli.extension_name
+  Cli.all_formats
+  Cli.format_name
+  Cli.all_list_styles
+  Cli.list_style_name
+  Cli.list_style_type_name
+  Cli.renderer_name
+  Cli.unset_option_fields
+  Cli.gfm_fields
+  Cli.inplace_conflicts
+  Cli.gated_flags
+  Cli.read_error_exit
+  Cli.config_parse_error_exit
+  Cli.success_exit
+  CliModel.cli_with_config_model
+  CliModel.clap_accepts
+  CliModel.clap_usage_error_exit
+  CliDoc.overlapping_config
+  CliDoc.nonutf8_argv_with_config
+  CliDoc.double_dash_config
+  CliDoc.unknown_theme
 .
